@@ -47,6 +47,10 @@ POOL = [
          ("k", {"typ": "Union[Tuple[tf.data.Dataset, tf.data.Dataset], Tuple[np.ndarray, np.ndarray]]", "doc": "the k value"})]),
      "returns": OrderedDict([("return_type", {"typ": "Union[Tuple[tf.data.Dataset, tf.data.Dataset], Tuple[np.ndarray, np.ndarray]]",
                                               "doc": "Train and tests dataset splits."})])},
+    {"name": None, "type": "static", "doc": "Loads the zoo - resolved lazily - and returns it",
+     "params": OrderedDict([("mode", {"typ": "str", "doc": "pre- and post-processing mode - either fast or exact - used when the archive "
+                                                           "is opened -- see the notes", "default": "fast"}),
+                            ("n", {"typ": "int", "doc": "range 1 - 10 of retries", "default": 3})]), "returns": None},
     {"name": None, "type": "static", "doc": "Summary with exactly forty characters..",
      "params": OrderedDict([("rate", {"typ": "float", "doc": "learning rate used by the optimiser in every step of training", "default": 0.5})]),
      "returns": None},
@@ -78,8 +82,18 @@ def c18_tolerated(where, code, g, w, active):
     """known findings, each restricted to differences that consist ONLY of inserted line breaks / indentation"""
     if code == "typ-changed" and "KF-C18-wrapped-type" in active and _nows(g) == _nows(w):
         return True  # a wrapped type string is not re-joined
-    if code in ("doc", "summary") and "KF-C18-hyphen-break" in active and _nows(g) == _nows(w) and "-" in (w or ""):
-        return True  # textwrap breaks after a hyphen; re-joining with a space splits the hyphenated word
+    if code in ("doc", "summary") and "KF-C18-hyphen-break" in active and g is not None and w is not None:
+        # textwrap breaks after a hyphen INSIDE a word; re-joining the lines with a space gives 'ml- prepare'.  Exactly that outcome is
+        # tolerated: the text with an optional single space after intra-word hyphens - nothing else (in particular not a lost space).
+        import re
+
+        pat = ""
+        ww = _ws(w)
+        for i, ch in enumerate(ww):
+            pat += re.escape(ch)
+            if ch == "-" and 0 < i < len(ww) - 1 and ww[i - 1] != " " and ww[i + 1] != " ":
+                pat += " ?"
+        return re.fullmatch(pat, _ws(g)) is not None
     return False
 
 
